@@ -113,15 +113,16 @@ type CObs struct {
 }
 
 type COp struct {
-	Op  string `json:"op"`
-	N   string `json:"n"`
-	V   int    `json:"v"`
-	I   int    `json:"i"`
-	B   bool   `json:"b"`
-	Mt  int64  `json:"mt"`
-	Alt int    `json:"alt"` // renderput: the other version this call may serve
-	Of  string `json:"of"`  // regalias: the name whose loaded template is registered under N
-	Obs CObs   `json:"obs"`
+	Op        string `json:"op"`
+	N         string `json:"n"`
+	V         int    `json:"v"`
+	I         int    `json:"i"`
+	B         bool   `json:"b"`
+	Mt        int64  `json:"mt"`
+	AnyServed bool   `json:"anyserved"` // render: what is served is not determined (loader reads and cached names are)
+	Alt       int    `json:"alt"`       // renderput: the other version this call may serve
+	Of        string `json:"of"`        // regalias: the name whose loaded template is registered under N
+	Obs       CObs   `json:"obs"`
 }
 
 type CCase struct {
@@ -432,6 +433,9 @@ func runCacheHist(c *CCase, rec *bufio.Writer, traceNo int) (res Result) {
 			want := op.Obs
 			if c.Chain || c.FSChain {
 				want.Loads = got.Loads
+			}
+			if op.AnyServed {
+				want.Served = got.Served
 			}
 			if op.Op == "renderput" && got.Served == op.Alt {
 				want.Served = op.Alt
